@@ -445,6 +445,28 @@ pub fn secure_random(len: usize) -> Vec<u8> {
     data
 }
 
+/// Verification hooks: thin public wrappers around crate-private functions.
+/// Compiled only with `--cfg kestrel_verif`.
+#[cfg(kestrel_verif)]
+pub mod verif_hooks {
+    pub fn chapoly_encrypt_noise(key: &[u8], nonce: u64, ad: &[u8], plaintext: &[u8]) -> Vec<u8> {
+        crate::chapoly_encrypt_noise(key, nonce, ad, plaintext)
+    }
+
+    pub fn chapoly_decrypt_noise(
+        key: &[u8],
+        nonce: u64,
+        ad: &[u8],
+        ciphertext: &[u8],
+    ) -> Result<Vec<u8>, crate::errors::ChaPolyDecryptError> {
+        crate::chapoly_decrypt_noise(key, nonce, ad, ciphertext)
+    }
+
+    pub fn hkdf_noise(chaining_key: &[u8], ikm: &[u8]) -> (Vec<u8>, Vec<u8>) {
+        crate::hkdf_noise(chaining_key, ikm)
+    }
+}
+
 #[cfg(test)]
 mod tests {
     use super::{
